@@ -2,6 +2,7 @@ package main
 
 import (
 	"encoding/json"
+	"strings"
 
 	"verif/harness/sim"
 )
@@ -18,19 +19,24 @@ func main() {
 		var c struct {
 			Case  int    `json:"case"`
 			Layer string `json:"layer"`
+			Cfg   string `json:"cfg"`
 		}
 		json.Unmarshal(run.ReplayCase, &c)
 		if c.Layer == "oracle" {
 			dataRequestFees(run, c.Case)
+		} else if strings.Contains(c.Cfg, "GenesisExtra:0x") {
+			oracleSignFees(run)
 		} else {
 			signingFees(run)
 		}
 		run.Finish()
 	}
 	signingFees(run)
+	oracleSignFees(run)
 	sim.Parallel(run.N(120, 3000), 16, func(i int) { dataRequestFees(run, i) })
 	for _, c := range []string{"req-paid", "member-payouts", "req-rejected-over-limit", "ledger-blocks-checked", "oracle-req-paid", "oracle-req-free",
-		"oracle-req-rejected-over-limit", "oracle-req-rejected-insufficient-balance", "oracle-ledger-blocks-checked"} {
+		"oracle-req-rejected-over-limit", "oracle-req-rejected-insufficient-balance", "oracle-ledger-blocks-checked",
+		"oracle-tss-requests", "oracle-tss-result-signings-paid", "oracle-tss-result-signing-refused:limit-exhausted", "oracle-tss-resolved-without-success"} {
 		run.Require(c, 1)
 	}
 	run.Finish()
